@@ -71,7 +71,7 @@ ASSUME = [
 ]
 TRUSTED = ["h5py, pandas, cyvcf2 as used by the library", "pbmon/oracle/obsequal.py"]
 TOL = 1e-9
-QUICK_TOTAL, THOROUGH_TOTAL = 6000, 200000
+QUICK_TOTAL, THOROUGH_TOTAL = 6000, 160000
 
 
 # =============================================================== helpers
